@@ -313,6 +313,19 @@ def r5(ctx: Ctx) -> None:
         ok = bool(names & {"compute_file_checksum", "compute_checksum_from_stream", "compute_checksum"}) and after_close
         ctx.ob("C14.R5", wd, "checksum computed from the finished file", c, ok,
                "DataFile.checksum derives from an IntegrityChecker computation placed after the writer was closed")
+    for c in ctor:
+        ck = kwarg(c.ast, "checksum")
+        if isinstance(ck, ast.Name):
+            defs = ctx.rd(wd).reaching(c.id, ck.id)
+            nonc = [d for d in defs if not (isinstance(g.nodes[d].ast, ast.Assign) and isinstance(g.nodes[d].ast.value, ast.Call)
+                                            and "checksum" in norm_text(g.nodes[d].ast.value.func))]
+            ctx.ob("C14.R5", wd, "every reaching definition of the checksum is a computed digest", c, bool(defs) and not nonc,
+                   "a fallback such as `checksum = None` after a failed read-back records a file that is never verified again"
+                   + (f"; other definitions at lines {[g.nodes[d].lineno for d in nonc]}" if nonc else ""))
+        for cc in [n for n in g.calls() if any(t.name.startswith("compute_") and "checksum" in t.name for t in ctx.eff.callees(wd, n))]:
+            esc, caught = ctx.eff.propagate(wd, {"OSError"}, cc.frames, record=False)
+            ctx.ob("C14.R5", wd, "a failing checksum read-back fails the append", cc, bool(esc) and not caught,
+                   "the read-back error propagates (fail closed): the file is not recorded without a checksum")
     ad = ctx.fn("transaction.Transaction.append_data")
     for c in [n for n in ctx.cfg(ad).calls() if n.callee and n.callee.kind == "ctor" and n.callee.cls and n.callee.cls.name == "DataFile"]:
         ck = kwarg(c.ast, "checksum")
